@@ -6,7 +6,9 @@
    masks, empty zipped lists — are gone; their witnesses live on in corpus/C02/).
    Model: Model/Slice.v over Base/ArrFlat.v (flat C-order arrays, abstract cells: a mask is part of
    the cell, so "masks carried over" is the statement at A := value * masked). *)
-From PNC Require Import Base.Util Base.ArrFlat Model.Slice Proofs.ArrFlatProofs Proofs.SliceProofs.
+From PNC Require Import Base.Util Base.ArrFlat Model.Slice Proofs.ArrFlatProofs Proofs.SliceProofs
+                        Gen.SliceDimSrc Proofs.SliceDimProofs.
+From Coq Require Import Permutation.
 
 (* ---- selector normalisation (Python ints / slices / lists -> source indices) ------------- *)
 
@@ -106,6 +108,50 @@ Theorem C02_slice_file : forall (A : Type) (f : file A) kws,
 Proof. intros A. exact slice_file. Qed.
 Print Assumptions C02_slice_file.
 
+(* the zipped specification element-wise: with `pre` the (list-free) selectors before the first
+   list, it enumerates the index tuples of `pre` in C order, under each the P points in order, and
+   for each point the orthogonal selection with every list replaced by its ii-th element *)
+Theorem C02_zip_spec_elements : forall (A : Type) P pre sh rest (d : list A),
+  forallb (fun r => negb (is_list r)) pre = true ->
+  (exists l rest', rest = RList l :: rest') ->
+  length (pre ++ rest) = length sh ->
+  zslice P sh (pre ++ rest) d
+  = flat_map (fun idx =>
+      flat_map (fun ii => oslice sh (map RInt idx ++ pointify ii rest) d) (seq 0 P))
+      (cart (map rindices pre)).
+Proof. intros A. exact zslice_elements. Qed.
+Print Assumptions C02_zip_spec_elements.
+
+(* "in any keyword order": permuting the (distinct) keywords changes nothing, error outcomes
+   included — for the model of the code and for the specification *)
+Theorem C02_keyword_order : forall (A : Type) (f : file A) kws kws',
+  Permutation kws kws' -> NoDup (map fst kws) ->
+  impl_slice_file f kws = impl_slice_file f kws' /\ spec_slice_file f kws = spec_slice_file f kws'.
+Proof.
+  intros A f kws kws' H1 H2. split; [exact (slice_file_kw_order _ _ f kws kws' H1 H2)|
+                                      exact (slice_file_kw_order _ _ f kws kws' H1 H2)].
+Qed.
+Print Assumptions C02_keyword_order.
+
+(* ---- string form slice_dim: generated argument bookkeeping (tie T, Gen/SliceDimSrc.v) ------- *)
+
+(* 'dim,i' selects exactly element i of the axis, counted from the end for negative i *)
+Theorem C02_slice_dim_single_index : forall n a,
+  (- Z.of_nat n <= a < Z.of_nat n)%Z ->
+  match sel_of_args [Some a] with Some s => resolve n s | None => None end
+  = option_map (fun i => RSlice [i]) (norm_index n a).
+Proof. exact single_index. Qed.
+Print Assumptions C02_slice_dim_single_index.
+
+(* 'dim,a,b' and 'dim,a,b,c' are slice(a,b) and slice(a,b,c); further numbers are ignored; no
+   number at all cannot be unpacked *)
+Theorem C02_slice_dim_forms : forall a b c rest,
+  sel_of_args [a; b] = Some (SSlice a b None) /\
+  sel_of_args (a :: b :: c :: rest) = Some (SSlice a b c) /\
+  sel_of_args [] = None.
+Proof. exact args_forms. Qed.
+Print Assumptions C02_slice_dim_forms.
+
 (* ---- non-vacuity ---------------------------------------------------------------------------- *)
 
 (* a selection that moves cells: negative int, reversed strided slice, list with a repeat *)
@@ -134,6 +180,12 @@ Example C02_file_empty_lists :
   impl_slice_file (File [2; 3] [Var [0; 1] (seq 0 6)]) [(0, SList []); (1, SList [])]
   = Some (File [0; 0; 0] [Var [2] []]).
 Proof. vm_compute. reflexivity. Qed.
+
+Example C02_slice_dim_single_inhabited :
+  sel_of_args [Some (-1)%Z] = Some (SSlice (Some (-1)%Z) None None) /\
+  resolve 4 (SSlice (Some (-1)%Z) None None) = Some (RSlice [3]) /\
+  sel_of_args [Some 2%Z] = Some (SSlice (Some 2%Z) (Some 3%Z) None).
+Proof. vm_compute. repeat split; reflexivity. Qed.
 
 Example C02_zip_inhabited :
   let rs := [RInt 0; RInt 0; RList [0; 1]; RList [0; 1]; full_sel 2] in
